@@ -248,7 +248,65 @@ func (s *Sched) enabled() []*goroutine {
 			en = append(en, g)
 		}
 	}
-	return en
+	if len(en) < 2 {
+		return en
+	}
+	// Rendezvous reduction: when two parked goroutines are enabled only because of each other
+	// (unbuffered send/receive pair), moving either one performs the same joint transfer, so only
+	// the lower-numbered one is offered.
+	var out []*goroutine
+	for _, h := range en {
+		drop := false
+		if h.pending.kind == opSelect && !h.pending.completed && !h.pending.hasDefault && !s.readySolo(h.pending) {
+			for _, p := range en {
+				if p.id >= h.id || p.pending.kind != opSelect || p.pending.completed || p.pending.hasDefault || s.readySolo(p.pending) {
+					continue
+				}
+				if s.peers(h.pending, p.pending) {
+					drop = true
+					break
+				}
+			}
+		}
+		if !drop {
+			out = append(out, h)
+		}
+	}
+	return out
+}
+
+// readySolo: the select op can proceed without any parked peer (buffer space/data/closed).
+func (s *Sched) readySolo(op *pendingOp) bool {
+	for i := range op.cases {
+		c := &op.cases[i]
+		ch := c.ch
+		if ch == nil {
+			continue
+		}
+		if ch.symCount != nil {
+			return true
+		}
+		if c.send {
+			if ch.closed || len(ch.buf) < ch.capacity {
+				return true
+			}
+		} else if len(ch.buf) > 0 || ch.closed {
+			return true
+		}
+	}
+	return false
+}
+
+// peers: a has a case matching a case of b on the same channel in the opposite direction.
+func (s *Sched) peers(a, b *pendingOp) bool {
+	for i := range a.cases {
+		for j := range b.cases {
+			if a.cases[i].ch != nil && a.cases[i].ch == b.cases[j].ch && a.cases[i].send != b.cases[j].send {
+				return true
+			}
+		}
+	}
+	return false
 }
 
 // pick selects the next goroutine to move (may fire timers); reports deadlock by ending the run.
